@@ -13,6 +13,7 @@ import warnings
 
 import numpy as np
 from hypothesis import strategies as st
+from scipy.sparse.linalg import LinearOperator
 
 from vlib.core import Violation
 from vlib.gen.coupled import CoupledSystem, build_disciplines, coupled_systems, describe_graph, input_values
@@ -74,7 +75,8 @@ MDAS = ["MDAGaussSeidel", "MDAJacobi", "MDANewtonRaphson", "MDAChain", "MDAChain
 
 @st.composite
 def cases(draw):
-    system = draw(coupled_systems(state_form=draw(st.integers(0, 2)) == 0))
+    system = draw(coupled_systems(state_form=draw(st.integers(0, 2)) == 0, operator_jacobians=True,
+                                  input_scales=draw(st.integers(0, 2)) == 0))
     values = draw(input_values(system))
     n_in = len(system["x"])
     out_names = [o["name"] for d in system["discs"] for o in d["outputs"]]
@@ -274,7 +276,20 @@ def resolve_request(model: CoupledSystem, req: dict, used_x: list) -> tuple[list
     return sorted(set(ins)), sorted(set(outs))
 
 
-def compare(ctx, p, model, tag, jac, expected, in_names, out_names, label):
+def input_magnitudes(model: CoupledSystem, x: dict, sol: dict) -> dict:
+    """Largest |partial derivative| of any discipline output w.r.t. each design input at the solution.
+
+    The error of a total-derivative block w.r.t. ``x_k`` is relative to this magnitude: the right-hand sides
+    (direct mode) or the final products (adjoint mode) are proportional to the partial Jacobians w.r.t. ``x_k``,
+    and the linear solves are accurate relatively to their right-hand side (``rtol``).
+    """
+    data = dict(x)
+    data.update(sol)
+    _, jx = model.system_jacobians(data)
+    return {n: float(np.max(np.abs(jx[:, model.x_offset[n]: model.x_offset[n] + model.sizes[n]]), initial=0.0)) for n in model.x_names}
+
+
+def compare(ctx, p, model, tag, jac, expected, in_names, out_names, label, magnitude):
     tol = 1e-7 if p["solver"] in KRYLOV and not (p["lu"] and p["matrix"] == "matrix") else 1e-9
     if p["solver"] in KRYLOV and any("did not converge" in m for m in _LINEAR_SOLVER_LOG.messages):
         raise _KrylovBreakdown  # logged by gemseo, the unconverged solution is used: inconclusive for that solver
@@ -293,20 +308,25 @@ def compare(ctx, p, model, tag, jac, expected, in_names, out_names, label):
             if model.state_of and reads_state_of_other_discipline(model, o, chained) and ctx.known("function_reads_state_variable", count=False):
                 ctx.cls("block_excluded:function_reads_state_variable")
                 continue
-            arr = blk.toarray() if hasattr(blk, "toarray") else np.asarray(blk)
+            if isinstance(blk, LinearOperator):  # matrix-free result (chain rule over JacobianOperator partials)
+                ctx.cls("block_returned_as_operator")
+                arr = np.asarray(blk.dot(np.eye(blk.shape[1])))
+            else:
+                arr = blk.toarray() if hasattr(blk, "toarray") else np.asarray(blk)
             exp = expected[o][i]
             ctx.check(arr.shape == exp.shape, "shape", f"{tag} {label}: d{o}/d{i} has shape {arr.shape}, expected {exp.shape}")
             if p["solver"] in KRYLOV and not np.all(np.isfinite(arr)) and not (p["lu"] and p["matrix"] == "matrix"):
                 raise _KrylovBreakdown
             ctx.check(bool(np.all(np.isfinite(arr))), "closed_form", f"{tag} {label}: d{o}/d{i} is not finite")
             err = float(np.max(np.abs(arr - exp), initial=0.0))
-            bound = tol * (1.0 + float(np.max(np.abs(exp), initial=0.0)))
+            # relative to the input's own scale: 1 + max|exp| for the usual inputs (partials of magnitude 0.5-1.5)
+            bound = tol * (2.0 * magnitude[i] + float(np.max(np.abs(exp), initial=0.0))) + 1e-300
             requested = o in out_names and i in in_names
             ctx.check(err <= bound, "closed_form" if requested else "unrequested_pairs",
                       f"{tag} {label}: d{o}/d{i} differs from the implicit-function closed form by {err:.3e} > {bound:.1e} "
                       f"(mode {p['mode']}, {p['matrix']}, lu={p['lu']}, solver {p['solver']})",
                       got=arr, expected=exp)
-            ctx.extra["max_error_over_bound"] = max(ctx.extra.get("max_error_over_bound", 0.0), round(err / bound, 4))
+            ctx.extra["max_error_over_bound"] = max(ctx.extra.get("max_error_over_bound", 0.0), round(err / bound, 6))
 
 
 def case_derivatives(p, ctx):
@@ -339,6 +359,11 @@ def _case_derivatives(p, ctx):
         ctx.cls(f"{key}={min(info[key], 2)}{'+' if info[key] >= 2 else ''}")
     sol1 = model.solve(x1)
     exp1 = model.total_derivatives(x1, sol1)
+    mag1 = input_magnitudes(model, x1, sol1)
+    if any(v != 1.0 for v in model.x_scale.values()):
+        ctx.cls("badly_scaled_design_input")
+    if any(d.get("jac") == "operator" for d in p["system"]["discs"]):
+        ctx.cls("operator_partial_jacobians")
     req_in, req_out = [], []
     strict = False
 
@@ -370,7 +395,7 @@ def _case_derivatives(p, ctx):
             uses_assembly = not (tag.startswith("MDAChain") and p["chain_linearize"])
             if lu_with_operator and uses_assembly:
                 ctx.fail("documented_rejection", f"{tag}: LU factorisation with a linear operator was accepted")
-            compare(ctx, p, model, tag, jac, exp1, req_in, req_out, f"request {k + 1}")
+            compare(ctx, p, model, tag, jac, exp1, req_in, req_out, f"request {k + 1}", mag1)
             if len(req_in) < len(used_x) or len(req_out) < len(model.out_names):
                 strict = True
         if p["final"] == "new_point":
@@ -383,7 +408,8 @@ def _case_derivatives(p, ctx):
                     ctx.cls("rejected_lu_with_linear_operator")  # documented (an inner MDA reached only now)
                     return
                 raise
-            compare(ctx, p, model, tag, jac, model.total_derivatives(x2, sol2), req_in, req_out, "new point")
+            compare(ctx, p, model, tag, jac, model.total_derivatives(x2, sol2), req_in, req_out, "new point",
+                    input_magnitudes(model, x2, sol2))
             ctx.cls("final:new_point")
         elif p["final"] == "all_pairs":
             # every design input that is read x every output depending on a design input
@@ -401,7 +427,7 @@ def _case_derivatives(p, ctx):
                     ctx.cls("rejected_lu_with_linear_operator")  # documented (an inner MDA reached only now)
                     return
                 raise
-            compare(ctx, p, model, tag, jac, exp1, req_in, req_out, "all pairs")
+            compare(ctx, p, model, tag, jac, exp1, req_in, req_out, "all pairs", mag1)
             ctx.cls("final:all_pairs")
     except _KrylovBreakdown:
         ctx.cls("inconclusive:krylov_breakdown")
